@@ -503,8 +503,14 @@ xds_decoder(vbi_decoder *vbi, int _class, int type,
 				sum &= ((1UL << 31) - 1);
 				sum |= 1UL << 30;
 
-				if (n->nuid != 0)
+				if (n->nuid != 0) {
+					/* vbi_chsw_reset() resets the caption
+					   decoder under cc.mutex and may send
+					   events, see caption_send_event(). */
+					pthread_mutex_unlock(&vbi->cc.mutex);
 					vbi_chsw_reset(vbi, sum);
+					pthread_mutex_lock(&vbi->cc.mutex);
+				}
 
 				n->nuid = sum;
 
@@ -1434,6 +1440,9 @@ vbi_caption_channel_switched(vbi_decoder *vbi)
 	cc_channel *ch;
 	int i;
 
+	/* Pages may be fetched by another thread, see vbi_fetch_cc_page(). */
+	pthread_mutex_lock(&cc->mutex);
+
 	for (i = 0; i < 9; i++) {
 		ch = &cc->channel[i];
 
@@ -1475,6 +1484,8 @@ vbi_caption_channel_switched(vbi_decoder *vbi)
 	cc->info_cycle[1] = 0;
 
 	vbi_caption_desync(vbi);
+
+	pthread_mutex_unlock(&cc->mutex);
 }
 
 static vbi_rgba
